@@ -12,7 +12,9 @@
    also while the reading is taken; the code may hold more -- a task between its last event and its
    deferred lr.End(), the dispatch loop's freshly acquired permit -- never fewer).  On the protocol
    model the same statement is  free s + #{tasks in a must_hold counter} <= K
-   (C04_free_permits_cover_must_hold).
+   (C04_free_permits_cover_must_hold).  The reading taken after the call returned must show ALL K
+   permits free (on the protocol model: C04_all_permits_free_at_return) -- a leaked permit is a
+   rejected run.
 
    Transport: the shared driver ml/c01_main.ml only knows CopySpec's event tokens.  A reading is
    carried as the token TB.<f> (event TagB f); dst.Tag is never called by CopyGraph, and no trace of
@@ -25,8 +27,13 @@ Inductive pev :=
 | PEv (e : event)        (* a recorded event of the copy *)
 | PFree (f : nat).       (* the limiter had f free permits right after the previous event *)
 
+(* while the call runs: the permits certainly held and the free ones fit into K;
+   once the call has returned (nil or an error): every permit is free again *)
 Definition reading_ok (g : graph) (c : cfg) (st : state) (f : nat) : bool :=
-  Nat.leb (holders g st + f) (c_K c).
+  match returned st with
+  | None => Nat.leb (holders g st + f) (c_K c)
+  | Some _ => Nat.eqb f (c_K c)
+  end.
 
 (* one item of the recorded run: an event goes through the overlay (nil callbacks elaborated), a
    reading is checked against the state and changes nothing *)
